@@ -97,13 +97,16 @@ class World:
         self.registry[k] = ev
         return ev
 
-    def build(self, control=False, recorder=None):
+    def build(self, control=False, recorder=None, early=0):
+        """early = number of pre-run events (in label order) created before Simulation() exists."""
         end = None if self.prog.end_t == INF else Instant(self.prog.end_t * self.step)
         kw = {}
         if recorder is not None:
             kw["trace_recorder"] = recorder
+        labels = [i for i, e in enumerate(self.prog.events, start=1) if not e["par"]]
+        pre = [self.make(i) for i in labels[:early]]
         sim = Simulation(end_time=end, entities=list(self.ents.values()), **kw)
-        pre = [self.make(i) for i, e in enumerate(self.prog.events, start=1) if not e["par"]]
+        pre += [self.make(i) for i in labels[early:]]
         if self.shuffle_push is not None:
             self.shuffle_push.shuffle(pre)
         for ev in pre:
@@ -115,13 +118,15 @@ class World:
 
 
 def run_program(prog: Program, *, form="list", control=False, step_ns=1, shuffle_push=None,
-                max_records=200000):
+                max_records=200000, early=0, prior=0):
     """Run a program on the real engine under the probe.  Returns (labels, probe, world, error)."""
     probe = EngineProbe(max_records=max_records)
     err = None
     with probe:
         w = World(prog, form=form, step_ns=step_ns, shuffle_push=shuffle_push)
-        sim = w.build(control=control)
+        for _ in range(prior):          # unrelated earlier activity in this interpreter
+            Event(time=Instant(0), event_type="noise", target=next(iter(w.ents.values())))
+        sim = w.build(control=control, early=early)
         try:
             sim.run()
         except ProbeOverflow:
